@@ -180,6 +180,23 @@ extra5 = {
 for k, v in extra5.items():
     lvl, tech, text, note, ref = claims[k]
     claims[k] = (lvl, tech, text + v, note, ref)
+# round-6 additions
+extra6 = {
+ 'C04': ' No interface- or function-typed argument of a handler-facing method of the buffering writer is called, or handed to a call, while the writer mutex is held (R3h).',
+ 'C06': ' The row scanner reports not-found only after rows.Err() was found nil (R11); value and TTL travel in one SET/SETNX command (R12); a deferred invalidation owns the key slices it captures (R13; found and fixed F33).',
+ 'C07': ' collection.Cache.Take runs the loader only inside barrier.Do keyed by the caller\'s key (R10).',
+ 'C08': ' A recursiveValuer (ancestor lookup) is built only under inherit and for dotted keys (R12); the HTTP adapters leave the request\'s collections untouched (R10); package-level containers never flow into a target (R13; found and fixed F34); no reflect.ValueOf(x).Type() on the failing side of a validity test (found and fixed F35); the duration path is chosen by type, not kind (R14; found and fixed F36).',
+ 'C09': ' Nothing between the tree\'s result and the handler rewrites the bound variables (R5); no function of the module installs a not-allowed handler by default (R12).',
+ 'C11': ' sync.Pool objects on the way through Execute are emptied when taken or on every way back (R11); pe.lock is never held across the Wait barrier (R1 lock order).',
+ 'C12': ' The task runner Drain uses releases its slot on every exit incl. panic (R10).',
+ 'C13': ' Every return of cluster.load applied the snapshot through handleChanges, also the empty one (R12).',
+ 'C17': ' String data is stored untouched by convertTypeFromString (R15 kind tables).',
+ 'C19': ' AcquireCtx never reaches a deleting script (R3); nobody reseeds the id generator, whose source is seeded from UnixNano (R9).',
+ 'C20': ' Source positions decide layout only in Writer.write (R14); the classes of sources NewScanner rejects are frozen (R15); a comment is rejected only against what the grammar expects at that point (R16).',
+}
+for k, v in extra6.items():
+    lvl, tech, text, note, ref = claims[k]
+    claims[k] = (lvl, tech, text + v, note, ref)
 not_built_reason = 'static rules designed (DESIGN.md section 3) but not built yet in this revision'
 
 checks, na = [], []
